@@ -168,7 +168,7 @@ def factsBeforeRound3 : TcFacts :=
     ops := { Expected.C12.opFacts with convNilBoolGuard := false, assignNilGuard := false, constIfaceChecked := false },
     landLorChecked := false, sendValueChecked := false, sendDirChecked := false, retConstChecked := false,
     cmpConvErrKept := false, zeroConst := .untypedSign, opAssignZeroChecked := false, quoFloatZeroOk := false,
-    indexNegChecked := false, indexOperandChecked := false, recvDeclKeepsType := false, recvAssignChecked := false,
+    indexNegChecked := false, indexOperandChecked := false, recvDecl := .legacy, recvAssign := .legacy,
     callValueChecked := false, convTypedConstChecked := false }
 def verdictBefore (p : Prog) : Verdict := (checkProg (rulesY factsBeforeRound3) p).verdict
 
